@@ -66,6 +66,20 @@ def proves_zero(R, eqs, ges):
     return is_ge(R) and is_ge(neg)
 
 
+def _scale_and_target(fn):
+    """the two scales of a fixed-point layout routine as linear atoms: two u64 parameters (scale, target_scale in that
+    order), or the `scale` / `target_scale` fields of a small carrier struct parameter"""
+    tys = fn.argtys()
+    u64s = [i for i, ty in enumerate(tys, 1) if ty == 'u64']
+    if len(u64s) == 2:
+        return {('param', u64s[0]): 1}, {('param', u64s[1]): 1}
+    carriers = [i for i, ty in enumerate(tys, 1) if not re.search(r'Vec<|NonDigitRoundingData|^u64$|^usize$|Formatter', ty)]
+    if len(carriers) == 1:
+        c = ('param', carriers[0])
+        return {('field', c, 'scale'): 1}, {('field', c, 'target_scale'): 1}
+    return {('param', 2): 1}, {('param', 3): 1}
+
+
 def check(rep, F, rule='FIXED-POINT'):
     fn = F.fns.get('impl_fmt::format_ascii_digits_with_integer_and_fraction')
     if fn is None:
@@ -78,7 +92,7 @@ def check(rep, F, rule='FIXED-POINT'):
     except Undecided as e:
         rep.undecided_anchor(rule, fn.key + ':scale-bookkeeping', str(e), fn.where())
         return 0
-    scale, target = {('param', 2): 1}, {('param', 3): 1}
+    scale, target = _scale_and_target(fn)
     cells = {}
 
     def put(cell, status, why):
@@ -176,7 +190,7 @@ def check(rep, F, rule='FIXED-POINT'):
         # delta terms inside atoms refer to the same call: substitute len(arg1) consistently is not needed (opaque atoms)
         R = N.add(s, target, -1)
         if proves_zero(R, eqs, ges):
-            tz = [e for e in eqs if set(e.keys()) == {('param', 3)}]
+            tz = [e for e in eqs if set(e.keys()) == set(target.keys())]
             if point and tz:
                 put(cell, 'violation', 'a point is inserted although no digit is requested after it')
             elif not point and not tz:
@@ -218,7 +232,7 @@ def check_no_integer(rep, F, rule='FIXED-POINT'):
     except Undecided as e:
         rep.undecided_anchor(rule, fn.key + ':layout', str(e), fn.where())
         return 0
-    scale, target = {('param', 2): 1}, {('param', 3): 1}
+    scale, target = _scale_and_target(fn)
     L0 = {('sym', 'len0'): 1}
     lz = N.add(scale, L0, -1)
     cells = {}
